@@ -215,7 +215,7 @@ fn gen_medium(rng: &mut Rng) -> Medium {
             5..=7 => Framing::KeyedLenPrefixed,
             _ => Framing::Positional,
         },
-        key_form: [KeyForm::Str, KeyForm::Borrowed, KeyForm::String, KeyForm::Str, KeyForm::Borrowed, KeyForm::String, KeyForm::Bytes, KeyForm::BorrowedBytes][rng.usize_below(8)],
+        key_form: [KeyForm::Str, KeyForm::Borrowed, KeyForm::String, KeyForm::Str, KeyForm::Borrowed, KeyForm::String, KeyForm::Bytes, KeyForm::BorrowedBytes, KeyForm::Index][rng.usize_below(9)],
         nums: if rng.chance(1, 2) { NumDelivery::Typed } else { NumDelivery::Widened },
         newtype: if rng.chance(1, 2) { NewtypeMode::Transparent } else { NewtypeMode::Wrapped },
         human_readable: rng.chance(1, 2),
@@ -457,7 +457,7 @@ pub fn sweep_plans(reg: &[TypeEntry]) -> Vec<Plan> {
         // clause (c): every arrangement of every subset of the three fields, with and without an
         // unknown entry at every position, through every key form, on both keyed framings
         for framing in [Framing::KeyedSelfDelim, Framing::KeyedLenPrefixed] {
-            for (ki, key_form) in [KeyForm::Str, KeyForm::Borrowed, KeyForm::String, KeyForm::Bytes, KeyForm::BorrowedBytes].into_iter().enumerate() {
+            for (ki, key_form) in [KeyForm::Str, KeyForm::Borrowed, KeyForm::String, KeyForm::Bytes, KeyForm::BorrowedBytes, KeyForm::Index].into_iter().enumerate() {
                 let medium = Medium { framing, key_form, size_hint: [SizeHint::Lower, SizeHint::None, SizeHint::Exact][ki % 3], ..Medium::DEFAULT };
                 let base = Plan { ty: e.name.clone(), gen: gen.clone(), patch: None, medium, wfaults: vec![], rfaults: vec![], retry: false, in_place: false };
                 let p = &e.probes[probe_index(&medium)];
